@@ -1982,7 +1982,8 @@ pub(crate) fn h_comment_layout_lineends() {
     let k = vrt_choice(4);      // line breaks inside the comment
     let j = vrt_choice(3);      // line breaks between the comment and the next token
     let site = vrt_choice(3);   // header / in front of MODULE / in front of /end MODULE
-    let mut c = String::from("/* a");
+    let indent = vrt_choice(3); // the comment starts in column 0 / after four blanks / after a tab (the blanks belong to the comment token)
+    let mut c = String::from(match indent { 0 => "/* a", 1 => "    /* a", _ => "\t/* a" });
     for _ in 0..k { c.push_str(nl); c.push_str(" b"); }
     c.push_str(" */");
     for _ in 0..j { c.push_str(nl); }
@@ -2909,5 +2910,61 @@ pub(crate) fn h_ifdata_cleanup_all_sites() {
             vrt_observe_u64(n_invalid as u64);
         }
         Err(_) => vrt_check(false, "C18 structurally balanced IF_DATA never makes loading fail (every site)"),
+    }
+}
+
+/// C15 over every list of a module: sort_new_items() on a fully placed module (two elements in each of the 20 named
+/// lists plus the unnamed parts) must not change the output at all, however often it is called
+pub(crate) fn h_sort_new_all_kinds() {
+    let (mut file, _) = load_from_string(&expand(ALL_KINDS_T, "", ""), None, false).unwrap();
+    let out0 = file.write_to_string();
+    for _ in 0..3 {
+        file.sort_new_items();
+        vrt_check(file.write_to_string() == out0, "C15 sort_new_items never changes the relative output order of elements that were already placed (every list of the module)");
+    }
+    // one new element of a kind in the middle of the file goes directly behind the last placed element of its kind
+    file.project.module[0].typedef_blob.push(TypedefBlob::new(String::from("zz_new"), String::new(), 4));
+    file.project.module[0].blob.push(Blob::new(String::from("zz_newblob"), String::new(), 0, 4));
+    file.sort_new_items();
+    let out1 = file.write_to_string();
+    let mut kinds: Vec<(String, String)> = Vec::new();
+    for line in out1.lines() { if let Some(kn) = tag_of(line) { kinds.push(kn); } }
+    for i in 0..kinds.len() {
+        if kinds[i].1 == "zz_new" { vrt_check(i > 0 && kinds[i - 1].0 == "TYPEDEF_BLOB", "C15 a new TYPEDEF_BLOB is written directly behind the last placed TYPEDEF_BLOB"); }
+        if kinds[i].1 == "zz_newblob" { vrt_check(i > 0 && kinds[i - 1].0 == "BLOB", "C15 a new BLOB is written directly behind the last placed BLOB"); }
+    }
+    // without the two new elements the order is the old one
+    let mut old_order: Vec<(String, String)> = Vec::new();
+    for line in out0.lines() { if let Some(kn) = tag_of(line) { old_order.push(kn); } }
+    let mut rest: Vec<(String, String)> = Vec::new();
+    for kn in kinds.iter() { if kn.1 != "zz_new" && kn.1 != "zz_newblob" { rest.push(kn.clone()); } }
+    vrt_check(rest == old_order, "C15 placed elements keep their order when new elements are inserted");
+    vrt_cover(true, "sort_new_all_kinds_end");
+}
+
+/// C20: a comment and an element that come from an include file, at MODULE level and inside a FUNCTION: observed on both builds
+pub(crate) fn h_c20_include_comment() {
+    let inner = vrt_choice(2) == 1;
+    let part = "/* comment of the include file */\n/begin UNIT u1 \"\" \"\" DERIVED\n/end UNIT\n// second comment\n";
+    let part_fn = "/* comment inside */\n/begin LOC_MEASUREMENT ms\n/end LOC_MEASUREMENT\n";
+    let mut main = String::from("ASAP2_VERSION 1 71\n/begin PROJECT p \"\"\n/begin MODULE m \"\"\n/begin MEASUREMENT ms \"\" UBYTE NO_COMPU_METHOD 0 0 0 255\n/end MEASUREMENT\n");
+    if inner {
+        main.push_str("/begin FUNCTION f \"\"\n/include part.a2l\n/end FUNCTION\n");
+        vrt_fs_write("part.a2l", part_fn.as_bytes());
+    } else {
+        main.push_str("/include part.a2l\n");
+        vrt_fs_write("part.a2l", part.as_bytes());
+    }
+    main.push_str("/end MODULE\n/end PROJECT\n");
+    let path = vrt_fs_write("main.a2l", main.as_bytes());
+    match load(&path, None, true) {
+        Ok((mut file, log)) => {
+            vrt_observe_u64(1);
+            vrt_observe_u64(log.len() as u64);
+            vrt_observe_bytes(file.write_to_string().as_bytes());
+            file.merge_includes();
+            vrt_observe_bytes(file.write_to_string().as_bytes());
+        }
+        Err(_) => vrt_observe_u64(0),
     }
 }
